@@ -105,8 +105,20 @@ impl KNumber {
             (I64(a), I64(b)) => {
                 if b < 0 {
                     F64((a as f64).powf(b as f64))
+                } else if let Ok(b) = u32::try_from(b) {
+                    I64(a.wrapping_pow(b))
                 } else {
-                    I64(a.wrapping_pow(b as u32))
+                    // The exponent doesn't fit into a u32, so apply it with wrapping
+                    // exponentiation by squaring.
+                    let (mut result, mut base, mut exponent) = (1_i64, a, b as u64);
+                    while exponent > 0 {
+                        if exponent & 1 == 1 {
+                            result = result.wrapping_mul(base);
+                        }
+                        base = base.wrapping_mul(base);
+                        exponent >>= 1;
+                    }
+                    I64(result)
                 }
             }
         }
